@@ -13,11 +13,12 @@ import (
 // callee resolution
 
 // CalleeName gives a resolved name for the callee of a call:
-//   static function/method:  "pkg.F", "(*pkg.T).M", "(pkg.T).M"
-//   interface method:        "(pkg.I).M"
-//   builtin:                 "builtin.len"
-//   closure literal:         the closure's SSA name
-//   otherwise:               "dynamic"
+//
+//	static function/method:  "pkg.F", "(*pkg.T).M", "(pkg.T).M"
+//	interface method:        "(pkg.I).M"
+//	builtin:                 "builtin.len"
+//	closure literal:         the closure's SSA name
+//	otherwise:               "dynamic"
 func CalleeName(c *ssa.CallCommon) string {
 	if c.IsInvoke() {
 		return shortName(c.Method.FullName())
